@@ -366,6 +366,9 @@ func (p *Project) Render(opts RenderOptions) (map[string]string, *Layout) {
 	for _, c := range p.Controllers {
 		for _, m := range c.Methods {
 			f := get(c.Pkg, m.File)
+			for _, imp := range m.RawImports {
+				f.imports[imp] = true
+			}
 			doc := MethodDocLines(m)
 			start := len(f.lines)
 			f.add(doc...)
